@@ -12,6 +12,13 @@ carries a history `pg = {"mode", "procs", "steps"}`:
   ["build", r, W, e]      THE sampler of the case is constructed with rank=r, world_size=W (None = default),
                           set_epoch(e), len(sampler), list(sampler) - recorded with the draw spies like every rank run
 
+ENVIRONMENT: optional `pg["env"]` = one dict per process of variables a launcher exports (torchrun's RANK / WORLD_SIZE /
+LOCAL_RANK / LOCAL_WORLD_SIZE / GROUP_RANK / MASTER_ADDR / MASTER_PORT, SLURM_PROCID / SLURM_NTASKS / SLURM_LOCALID,
+OMPI_COMM_WORLD_RANK / _SIZE, PMI_RANK / PMI_SIZE), set in the history's fresh process before its first step - consistent
+(a launcher's view), inconsistent (RANK >= WORLD_SIZE, ranks of another job) or not even numbers.  They must not matter:
+without a group default arguments mean (0, 1), with a group the group's values (real gloo groups are created with
+explicit rank / world_size and a file:// rendezvous, which do not consult these variables either).
+
 mode "sim":  one process; torch.distributed.is_available / is_initialized / get_rank / get_world_size (exactly what
              kappadata/utils/distributed.py and torch's DistributedSampler consult) are replaced by functions of a
              simulated state; without a group get_rank/get_world_size raise like the real ones.
@@ -36,6 +43,11 @@ PREVIEWS = ("weighted", "cb", "semi", "base")
 PREVIEW_E = {"weighted": 5, "cb": 4, "semi": 4}     # effective_length of the throwaway samplers
 GROUP_ERRORS = ("ValueError: Default process group", "RuntimeError: Requires distributed", "ValueError: Invalid rank",
                 "RuntimeError: simulated: distributed package")
+ENV_RANKS = ("RANK", "LOCAL_RANK", "GROUP_RANK", "NODE_RANK", "SLURM_PROCID", "SLURM_LOCALID", "SLURM_NODEID",
+             "OMPI_COMM_WORLD_RANK", "OMPI_COMM_WORLD_LOCAL_RANK", "PMI_RANK")
+ENV_WORLDS = ("WORLD_SIZE", "LOCAL_WORLD_SIZE", "SLURM_NTASKS", "SLURM_NPROCS", "OMPI_COMM_WORLD_SIZE", "PMI_SIZE")
+ENV_OTHER = ("MASTER_ADDR", "MASTER_PORT")
+ENV_VARS = ENV_RANKS + ENV_WORLDS + ENV_OTHER
 PROC_TIMEOUT = 120.0     # seconds for all processes of one history (a real one takes 0.02 .. 0.3 s)
 
 
@@ -147,8 +159,11 @@ def run_process(mode, case, script, tmpdir):
     return out
 
 
-def child(mode, case, script, tmpdir, wfd):
+def child(mode, case, script, tmpdir, wfd, env=None):
     try:
+        for k, v in (env or {}).items():      # what a launcher exported into this process
+            if k in ENV_VARS:
+                os.environ[k] = str(v)
         res = {"steps": run_process(mode, case, script, tmpdir)}
     except BaseException as e:  # noqa
         import traceback
@@ -178,7 +193,7 @@ def handle(req):
             pid = os.fork()
             if pid == 0:
                 os.close(rfd)
-                child(req["mode"], req["case"], script, tmpdir, wfd)
+                child(req["mode"], req["case"], script, tmpdir, wfd, (req.get("envs") or {}).get(str(p)))
             os.close(wfd)
             kids[rfd] = [p, pid, b""]
         results = [None] * len(req["scripts"])
@@ -283,7 +298,8 @@ def run_history(case, pg):
     """-> [ [None | record per step] per process ]  (or raises RuntimeError)"""
     scripts = expand(pg)
     p = _server()
-    p.stdin.write(json.dumps({"mode": pg["mode"], "case": case, "scripts": scripts}) + "\n")
+    envs = {str(q): e for q, e in enumerate(pg.get("env") or []) if e}
+    p.stdin.write(json.dumps({"mode": pg["mode"], "case": case, "scripts": scripts, "envs": envs}) + "\n")
     p.stdin.flush()
     line = p.stdout.readline()
     if not line:
@@ -365,6 +381,10 @@ def valid(kind, pg):
     tr = trace(pg)
     if not any(s[0] == "build" for s in pg["steps"]):
         return False
+    if pg.get("env") is not None:
+        if len(pg["env"]) != pg["procs"] or not all(isinstance(e, dict) and all(k in ENV_VARS and isinstance(v, str)
+                                                                                  for k, v in e.items()) for e in pg["env"]):
+            return False
     for p in range(pg["procs"]):
         for k, step in enumerate(pg["steps"]):
             st = tr[p][k]
@@ -392,6 +412,39 @@ def valid(kind, pg):
 # ---------------------------------------------------------------------------
 # generation
 # ---------------------------------------------------------------------------
+def gen_env(rng, P):
+    """the environment of every process of a history: a launcher's consistent view (RANK = some permutation of the
+    processes or of a bigger job, WORLD_SIZE ...), inconsistent numbers, or no numbers at all"""
+    q = rng.random()
+    envs = []
+    world = rng.choice([P, P, P + 1, 2, 4, 8, 1])
+    names = rng.choice([("RANK", "WORLD_SIZE", "LOCAL_RANK", "LOCAL_WORLD_SIZE", "MASTER_ADDR", "MASTER_PORT"),
+                        ("RANK", "WORLD_SIZE"), ("RANK",), ("SLURM_PROCID", "SLURM_NTASKS", "SLURM_LOCALID"),
+                        ("RANK", "WORLD_SIZE", "LOCAL_RANK", "GROUP_RANK", "SLURM_PROCID", "SLURM_NTASKS",
+                         "OMPI_COMM_WORLD_RANK", "OMPI_COMM_WORLD_SIZE", "PMI_RANK", "PMI_SIZE", "MASTER_ADDR")])
+    shift = rng.choice([0, 1, 1, 2, 3])
+    for p in range(P):
+        env = {}
+        for k in names:
+            if k in ENV_RANKS:
+                if q < 0.5:        # launcher-like: rank (p + shift) of a job
+                    v = str(p + shift)
+                elif q < 0.92:     # arbitrary, also >= the world size
+                    v = str(rng.choice([0, 1, 1, 2, 3, 5, 7, 63]))
+                else:
+                    v = rng.choice(["", "x", "-1", "1.5"])
+            elif k in ENV_WORLDS:
+                v = str(world) if q < 0.5 else (str(rng.choice([0, 1, 2, 3, 4, 16])) if q < 0.92 else rng.choice(["", "all"]))
+            else:
+                v = {"MASTER_ADDR": rng.choice(["127.0.0.1", "node-17.invalid"]), "MASTER_PORT": rng.choice(["29500", "0"])}[k]
+            env[k] = v
+        envs.append(env)
+    return envs
+
+
+ENV_FRACTION = 0.5     # share of the generated histories that run under a launcher's environment
+
+
 def gen_pg(rng, kind, epoch, mode=None):
     """a history for a sampler of the given kind: 3..8 random steps, then (if missing) an init followed by a build
     with default arguments"""
@@ -455,6 +508,14 @@ def gen_pg(rng, kind, epoch, mode=None):
                 steps.append(["destroy"])
             steps += [init_step(), ["build", None, None, e0]]
         pg = {"mode": mode_, "procs": P, "steps": steps}
+        if rng.random() < ENV_FRACTION:
+            pg["env"] = gen_env(rng, P)
+            # ... under which a sampler with default arguments is built (and the rank asked) WITHOUT a group as well
+            first_init = next((i for i, s in enumerate(steps) if s[0] == "init"), len(steps))
+            if not any(s[0] == "build" and s[1] is None and s[2] is None for s in steps[:first_init]):
+                steps.insert(rng.randint(0, first_init), ["build", None, None, e0])
+            if rng.random() < 0.5:
+                steps.insert(0, ["query", rng.choice(QUERIES)])
         # builds outside the domain (rank >= world size in some process) -> default arguments
         if not valid(kind, pg):
             pg["steps"] = [["build", None, None, s[3]] if s[0] == "build" and (s[1] is not None or s[2] is not None)
@@ -477,10 +538,32 @@ def directed(kind, epoch):
     yield {"mode": "gloo", "procs": 2, "steps": [["preview", "cb"], ["init", [1, 0], 2], ["build", None, None, e]]}
     yield {"mode": "gloo", "procs": 3, "steps": [["init", [0, 1, 2], 3], ["build", None, None, e], ["destroy"],
                                                  ["init", [1, None, 0], 2], ["build", None, None, e]]}
+    # under a launcher's environment: no group (single-process script started through torchrun / srun; samplers built
+    # before init_process_group), then a group whose values differ from the environment's
+    torchrun = {"RANK": "1", "WORLD_SIZE": "4", "LOCAL_RANK": "1", "LOCAL_WORLD_SIZE": "4", "GROUP_RANK": "0",
+                "MASTER_ADDR": "127.0.0.1", "MASTER_PORT": "29500"}
+    yield {"mode": "sim", "procs": 1, "env": [torchrun], "steps": [["build", None, None, e]]}
+    yield {"mode": "sim", "procs": 1, "env": [{"RANK": "3", "WORLD_SIZE": "2"}],
+           "steps": [["query", "get_rank"], ["query", "get_world_size"], ["query", "is_distributed"], ["preview", "weighted"],
+                     ["build", None, None, e], ["init", [0], 2], ["build", None, None, e], ["destroy"],
+                     ["build", None, None, e]]}
+    yield {"mode": "sim", "procs": 1, "env": [{"SLURM_PROCID": "2", "SLURM_NTASKS": "3", "SLURM_LOCALID": "2",
+                                               "OMPI_COMM_WORLD_RANK": "2", "OMPI_COMM_WORLD_SIZE": "3", "PMI_RANK": "2",
+                                               "PMI_SIZE": "3"}],
+           "steps": [["build", None, None, e], ["build", None, 3, e], ["init", [1], 3], ["build", None, None, e]]}
+    yield {"mode": "sim", "procs": 1, "env": [{"RANK": "2", "WORLD_SIZE": "1", "LOCAL_RANK": "x"}],
+           "steps": [["avail", False], ["build", None, None, e], ["avail", True], ["build", None, None, e]]}
+    yield {"mode": "gloo", "procs": 2, "env": [{**torchrun, "RANK": "0", "LOCAL_RANK": "0"}, dict(torchrun)],
+           "steps": [["build", None, None, e], ["init", [1, 0], 2], ["build", None, None, e], ["destroy"],
+                     ["build", None, None, e]]}
 
 
 def shrink_pg(kind, pg):
     steps = pg["steps"]
+    if pg.get("env") is not None:
+        yield {k: v for k, v in pg.items() if k != "env"}
+        for name in sorted({k for e in pg["env"] for k in e}):
+            yield {**pg, "env": [{k: v for k, v in e.items() if k != name} for e in pg["env"]]}
     for i in range(len(steps) - 1, -1, -1):
         cand = {**pg, "steps": steps[:i] + steps[i + 1:]}
         if valid(kind, cand):
@@ -506,6 +589,8 @@ def shrink_pg(kind, pg):
                 else:
                     sim_steps.append(s)
             cand = {"mode": "sim", "procs": 1, "steps": sim_steps}
+            if pg.get("env") is not None:
+                cand["env"] = [pg["env"][p]]
             if valid(kind, cand):
                 yield cand
     for i, s in enumerate(steps):
@@ -554,6 +639,9 @@ def describe(pg, p, k):
     tr = trace(pg)[p][k]
     g = group_of(tr)
     where = ("joined as rank %d of %d" % g) if g else "without a process group"
+    env = (pg.get("env") or [{}] * pg["procs"])[p]
+    if env:
+        where += "; environment of the process: " + json.dumps(env, sort_keys=True)
     return ("%s history %s, process %d, step %d (%s; %s)"
             % (pg["mode"], json.dumps(pg["steps"][:k + 1]), p, k, json.dumps(pg["steps"][k]), where))
 
@@ -642,6 +730,16 @@ def coq_pgs(pg, obs, coq_rank, codes):
 
 def features_pg(pg, obs):
     yield "pg:mode=" + pg["mode"]
+    envs = [e for e in (pg.get("env") or []) if e]
+    yield "pg:launcher environment=%s" % bool(envs)
+    if envs:
+        tr0 = trace(pg)
+        for p, e in enumerate(pg["env"]):
+            for k, s in enumerate(pg["steps"]):
+                if s[0] == "build" and s[1] is None and s[2] is None and e:
+                    yield "pg:env:default build %s a group" % ("inside" if group_of(tr0[p][k]) else "WITHOUT")
+        yield "pg:env:RANK=%s" % ("unset" if "RANK" not in envs[0] else ("0" if envs[0]["RANK"] == "0" else
+                                  (">0" if envs[0]["RANK"].isdigit() else "not a number")))
     steps = pg["steps"]
     first_init = next((i for i, s in enumerate(steps) if s[0] == "init"), len(steps))
     yield "pg:asked or built before the first init=%s" % any(s[0] in ("query", "preview", "build") for s in steps[:first_init])
